@@ -31,7 +31,7 @@ const rule = "case = (operation sequence over one pool: add n tasks | set worker
 
 // Op is one pool operation.
 type Op struct {
-	K    string `json:"k"` // add | workers | settle | waitall | joinall
+	K    string `json:"k"` // add | adddep | workers | settle | waitall | joinall
 	N    int    `json:"n,omitempty"`
 	Wait bool   `json:"wait,omitempty"`
 }
@@ -41,22 +41,36 @@ type Case struct {
 	Ops   []Op       `json:"ops"`
 	Plan  sched.Plan `json:"plan"`
 	Yield int        `json:"yield"` // tasks yield this many times
+	Poll  bool       `json:"poll,omitempty"` // a goroutine keeps reading State()/WorkerCount() (read-only accessors) during the case: lock contention
 }
 
 func TestMain(m *testing.M) { hx.Main(m, "C09", rule) }
 
 type task struct {
-	id    int
-	runs  int32
-	done  int64 // stamp
-	yield int
-	clock *int64
+	id      int
+	runs    int32
+	done    int64 // stamp
+	yield   int
+	clock   *int64
+	waitFor []*task       // a dependent task returns only when these have finished (or the case is torn down)
+	release chan struct{} // closed at teardown
 }
 
 func (t *task) Run(tid uint64) error {
 	atomic.AddInt32(&t.runs, 1)
 	for i := 0; i < t.yield; i++ {
 		time.Sleep(time.Microsecond)
+	}
+	for _, d := range t.waitFor {
+		for atomic.LoadInt64(&d.done) == 0 {
+			select {
+			case <-t.release:
+				atomic.StoreInt64(&t.done, atomic.AddInt64(t.clock, 1))
+				return nil
+			default:
+				time.Sleep(20 * time.Microsecond)
+			}
+		}
 	}
 	atomic.StoreInt64(&t.done, atomic.AddInt64(t.clock, 1))
 	return nil
@@ -77,6 +91,7 @@ type run struct {
 	tasks   []*task
 	clock   int64
 	workers int // requested worker count (model)
+	release chan struct{}
 }
 
 func (r *run) pending() int {
@@ -186,10 +201,26 @@ func (r *run) blocking(what string, f func()) *hx.Failure {
 }
 
 func runCase(c Case) (fail *hx.Failure) {
-	r := &run{tp: pool.NewThreadPool()}
+	r := &run{tp: pool.NewThreadPool(), release: make(chan struct{})}
 	r.s = sched.Install(c.Plan)
+	stopPoll := make(chan struct{})
+	if c.Poll {
+		go func() {
+			for {
+				select {
+				case <-stopPoll:
+					return
+				default:
+					r.tp.State()
+					r.tp.WorkerCount()
+				}
+			}
+		}()
+	}
 	defer func() {
 		// tear down: everything that could still be stuck is repaired by these broadcasting calls
+		close(stopPoll)
+		close(r.release)
 		r.s.Uninstall()
 		if r.tp.WorkerCount() == 0 {
 			r.tp.SetWorkerCount(1, false)
@@ -213,6 +244,24 @@ func runCase(c Case) (fail *hx.Failure) {
 			for k := 0; k < op.N; k++ {
 				t := &task{id: len(r.tasks), yield: c.Yield, clock: &r.clock}
 				r.tasks = append(r.tasks, t)
+				r.tp.AddTask(t)
+			}
+		case "adddep":
+			// a burst whose FIRST task returns only when the others have finished: needs a second worker to be woken
+			if r.workers < 2 {
+				continue
+			}
+			first := &task{id: len(r.tasks), yield: c.Yield, clock: &r.clock, release: r.release}
+			r.tasks = append(r.tasks, first)
+			var rest []*task
+			for k := 0; k < op.N; k++ {
+				t := &task{id: len(r.tasks), yield: c.Yield, clock: &r.clock}
+				r.tasks = append(r.tasks, t)
+				rest = append(rest, t)
+			}
+			first.waitFor = rest
+			r.tp.AddTask(first)
+			for _, t := range rest {
 				r.tp.AddTask(t)
 			}
 		case "workers":
@@ -240,13 +289,23 @@ func runCase(c Case) (fail *hx.Failure) {
 			}); f != nil {
 				return f
 			}
+			// the count must also STAY at the request (too many workers taking the same stop request overshoot a little later)
+			for k := 0; k < 20; k++ {
+				if got := r.tp.WorkerCount(); got != n && r.s.ActiveHolds() == 0 {
+					time.Sleep(2 * time.Millisecond)
+					if got2 := r.tp.WorkerCount(); got2 != n && got2 <= got {
+						return hx.Failf("worker-count-overshoot", "SetWorkerCount(%d, %v): the pool reached %d workers and then went to %d", n, op.Wait, n, got2)
+					}
+				}
+				time.Sleep(50 * time.Microsecond)
+			}
 		case "settle":
 			if r.workers >= 1 {
 				if f := r.passive("settle", func() bool { return r.pending() == 0 }, func(s snapshot) string {
+					if s.queue > 0 && s.idle >= 1 {
+						return "task-not-started" // a queued task and an idle worker cannot persist in a correct pool
+					}
 					if s.pending > 0 && s.total >= 1 && s.idle == s.total {
-						if s.queue > 0 {
-							return "task-not-started"
-						}
 						return "task-dropped"
 					}
 					return ""
@@ -291,10 +350,10 @@ func runCase(c Case) (fail *hx.Failure) {
 	// final: everything submitted while workers exist has run exactly once
 	if r.workers >= 1 {
 		if f := r.passive("final-settle", func() bool { return r.pending() == 0 }, func(s snapshot) string {
+			if s.queue > 0 && s.idle >= 1 {
+				return "task-not-started"
+			}
 			if s.pending > 0 && s.total >= 1 && s.idle == s.total {
-				if s.queue > 0 {
-					return "task-not-started"
-				}
 				return "task-dropped"
 			}
 			return ""
@@ -357,7 +416,7 @@ func genCase(rt *rapid.T) Case {
 	c.Ops = append(c.Ops, Op{K: "workers", N: 1 + pick(4, "w0"), Wait: pick(2, "w0w") == 0})
 	n := 2 + pick(12, "nops")
 	for i := 0; i < n; i++ {
-		switch k := pick(12, "op"); {
+		switch k := pick(13, "op"); {
 		case k <= 4:
 			c.Ops = append(c.Ops, Op{K: "add", N: 1 + pick(3, "addn")*pick(7, "addm")})
 		case k <= 6:
@@ -368,10 +427,13 @@ func genCase(rt *rapid.T) Case {
 			c.Ops = append(c.Ops, Op{K: "waitall"})
 		case k == 10:
 			c.Ops = append(c.Ops, Op{K: "joinall"}, Op{K: "workers", N: 1 + pick(4, "rw"), Wait: pick(2, "rww") == 0})
+		case k == 11:
+			c.Ops = append(c.Ops, Op{K: "adddep", N: 1 + pick(4, "depn")}, Op{K: "settle"})
 		default:
 			c.Ops = append(c.Ops, Op{K: "add", N: 1}, Op{K: "settle"})
 		}
 	}
+	c.Poll = pick(3, "poll") == 0
 	// perturbation plan: directed windows + random rules
 	switch pick(6, "directed") {
 	case 0, 1: // hold a worker between its empty dequeue and its wait until a task has been signalled
@@ -427,6 +489,35 @@ func directed(yield func(Case) bool) {
 	}
 }
 
+func directed2(yield func(Case) bool) {
+	for workers := 2; workers <= 4; workers++ {
+		for n := 1; n <= 3; n++ {
+			ops := []Op{{K: "workers", N: workers, Wait: true}, {K: "settle"}}
+			for i := 0; i < 3; i++ {
+				ops = append(ops, Op{K: "adddep", N: n}, Op{K: "settle"})
+			}
+			if !yield(Case{Ops: ops}) {
+				return
+			}
+		}
+	}
+	// shrinks while several workers pass through getTask together, with a reader contending for the worker-map lock
+	for from := 4; from <= 8; from += 2 {
+		for to := 1; to < from; to += 2 {
+			for _, wait := range []bool{false, true} {
+				ops := []Op{{K: "workers", N: from, Wait: true}}
+				for i := 0; i < 6; i++ {
+					ops = append(ops, Op{K: "add", N: from * 2}, Op{K: "workers", N: to, Wait: wait}, Op{K: "settle"}, Op{K: "workers", N: from, Wait: true})
+				}
+				if !yield(Case{Ops: ops, Poll: true, Yield: 1}) {
+					return
+				}
+			}
+		}
+	}
+}
+
 func TestExhaustive(t *testing.T) {
 	hx.Enumerate(t, "directed-windows", directed, runCase)
+	hx.Enumerate(t, "directed-dependent-and-shrink", directed2, runCase)
 }
